@@ -325,7 +325,9 @@ def main(argv=None):
                         if glob_known:
                             continue
                         fn_problem = any(k in ('unsupported', 'undecided') and 'encoder disagreement' not in m_ for k, fn, m_ in problems)
-                        if obs_of_fn and not fn_problem and all(n not in refuted and n not in unknown for n in obs_of_fn):
+                        # (when an obligation of ANOTHER function of this check failed, a caller verified against that callee's
+                        # contract can well fail natively: that is a concrete failing input for the violation, not a disagreement)
+                        if obs_of_fn and not fn_problem and not violations and all(n not in refuted and n not in unknown for n in obs_of_fn):
                             problems.append(('unsupported', e['name'], 'encoder disagreement: every obligation was discharged but the real '
                                              'code violates the contract on %s (%s)' % (json.dumps(e['input'])[:300], str(e.get('detail'))[:300])))
                         else:
